@@ -360,8 +360,13 @@ def toF64 (i : Int) : Int :=
     let q' := if r > half || (r == half && q % 2 == 1) then q + 1 else q
     if i < 0 then -((q' * 2 ^ e : Nat) : Int) else ((q' * 2 ^ e : Nat) : Int)
 
-/-- which rule group `extractValidationConstraints` reads for a field of this kind. -/
-def getter : NKind → NKind
+/-- which rule group `extractValidationConstraints` reads for a field of this kind: the kind's own
+(since /repo 3ffb0a3: one `apply<Kind>Constraints` per integer kind). -/
+def getter : NKind → NKind := id
+
+/-- before /repo 3ffb0a3: every 32-bit integer kind read the `int32` group, every 64-bit one the
+`int64` group — groups protovalidate refuses on those fields. Regression witness only. -/
+def getterBefore3ffb0a3 : NKind → NKind
   | .int32 | .sint32 | .sfixed32 | .uint32 | .fixed32 => .int32
   | .int64 | .sint64 | .sfixed64 | .uint64 | .fixed64 => .int64
   | .float => .float
